@@ -486,6 +486,7 @@ pub fn run<P: Prop>(ctx: &Ctx) -> i32 {
         "samples": samples,
         "known": a.known.iter().map(|(k, (n, w))| json!({"signature": k, "count": n, "what": w})).collect::<Vec<_>>(),
         "violations": a.violations,
+        "kernel_eof_races_masked": kernel_eof_races(),
         "pairs": a.pairs.iter().map(|(c, t)| format!("{:016x}:{:016x}", c, t)).collect::<Vec<_>>(),
         "inconclusive": a.inconclusive,
         "wall_s": t0.elapsed().as_secs_f64(),
@@ -505,6 +506,15 @@ pub fn run<P: Prop>(ctx: &Ctx) -> i32 {
     } else {
         0
     }
+}
+
+#[cfg(not(feature = "asan"))]
+fn kernel_eof_races() -> u64 {
+    crate::interpose::N_KERNEL_EOF_RACE.load(std::sync::atomic::Ordering::SeqCst)
+}
+#[cfg(feature = "asan")]
+fn kernel_eof_races() -> u64 {
+    0
 }
 
 fn params_match(ctx: &Ctx, doc: &Value) -> bool {
